@@ -1,7 +1,7 @@
 """C03 — malformed or foreign input is rejected cleanly and changes nothing."""
 import sys
 
-from sim import pair, refdec, single
+from sim import core, pair, refdec, single
 from sim.lib import header
 from .common import COMPONENTS, ASSUMPTIONS, rng  # noqa: F401
 
@@ -334,9 +334,15 @@ def check(plan, res):
         r2 = pair.execute(twin)
         probes["twin_compared"] = 1
         a, b = history(res.log), history(r2.log)
-        fresh = {tuple(op["src"]) for op in injected}
-        if a != b:
-            d = next((i for i, (x, y) in enumerate(zip(a, b)) if x != y), min(len(a), len(b)))
+        # an extra wake-up of the loop lets timers due within one clock resolution run that much earlier (and
+        # what they schedule follows): instants are compared with that tolerance per injection
+        tol = core.RES * (len(injected) + 1)
+
+        def same(x, y):
+            return x[1:] == y[1:] and abs(x[0] - y[0]) <= tol
+
+        if len(a) != len(b) or not all(same(x, y) for x, y in zip(a, b)):
+            d = next((i for i, (x, y) in enumerate(zip(a, b)) if not same(x, y)), min(len(a), len(b)))
             x = a[d] if d < len(a) else b[d]
             rule = "UNICAST-FLAG" if any(op.get("kind") == "unicast-flag-clear" for op in injected) and all(op.get("kind") == "unicast-flag-clear" or True for op in injected) and _only_flag(injected) else "TWIN-EQUAL"
             viol.append((rule, {"msg": f"history differs from the twin without the rejected datagrams at event {d}: {str(x)[:150]}", "context": f"history:{x[2]}"}))
